@@ -240,19 +240,21 @@ def transpile_structure(
             + indent_str("    ctx.context_values.pop()", indent)
         )
     if isinstance(struct, vyxal.structure.WhileLoop):
+        # The condition is evaluated at the top of every iteration, so
+        # that `continue` re-evaluates it like the end of the body does
         return (
-            transpile_ast(struct.condition, indent, dict_compress=dict_compress)
-            + indent_str("condition = pop(stack, 1, ctx=ctx)", indent)
-            + indent_str("while boolify(condition, ctx):", indent)
+            indent_str("while True:", indent)
+            + transpile_ast(
+                struct.condition, indent + 1, dict_compress=dict_compress
+            )
+            + indent_str("    condition = pop(stack, 1, ctx=ctx)", indent)
+            + indent_str("    if not boolify(condition, ctx):", indent)
+            + indent_str("        break", indent)
             + indent_str("    ctx.context_values.append(condition)", indent)
             + transpile_ast(
                 struct.body, indent + 1, dict_compress=dict_compress
             )
             + indent_str("    ctx.context_values.pop()", indent)
-            + transpile_ast(
-                struct.condition, indent + 1, dict_compress=dict_compress
-            )
-            + indent_str("    condition = pop(stack, 1, ctx=ctx)", indent)
         )
     if isinstance(struct, vyxal.structure.FunctionCall):
         var = re.sub("[^A-Za-z0-9_]", "", struct.name)
@@ -430,12 +432,13 @@ def transpile_structure(
     if isinstance(struct, vyxal.structure.RecurseStatement):
         if struct.parent_structure == vyxal.structure.IfStatement:
             return indent_str("pass", indent)
-        elif struct.parent_structure == vyxal.structure.ForLoop:
+        elif struct.parent_structure in (
+            vyxal.structure.ForLoop,
+            vyxal.structure.WhileLoop,
+        ):
             return indent_str("ctx.context_values.pop()", indent) + indent_str(
                 "continue", indent
             )
-        elif struct.parent_structure == vyxal.structure.WhileLoop:
-            return indent_str("continue", indent)
         elif struct.parent_structure == vyxal.structure.FunctionDef:
             return indent_str(
                 "stack.append(this(stack, this, ctx=ctx))", indent
